@@ -27,6 +27,8 @@ type Case struct {
 	// move lists (these prefix lengths, then the whole list); NewGame[i] sends ucinewgame before the i-th of them.
 	Prefixes []int  `json:"prefixes,omitempty"`
 	NewGame  []bool `json:"newgame,omitempty"`
+	// Before (uci): conforming position / ucinewgame lines sent on the same driver first (gen.EarlierPositions)
+	Before []string `json:"before,omitempty"`
 }
 
 const knownKey = "start-fen-raw-ep"
@@ -134,6 +136,9 @@ func checkUCI(c Case, rec *evid.Rec) error {
 	}
 	// interactive session: quit must not arrive while the search runs (it would abort it)
 	ses := eng.NewSession()
+	for _, l := range c.Before {
+		ses.Send(l)
+	}
 	base := strings.SplitN(cmd, " moves ", 2)[0]
 	for i, k := range c.Prefixes {
 		if k < 0 || k > len(c.Moves) {
@@ -470,6 +475,9 @@ func TestC10(t *testing.T) {
 					c.NewGame = append(c.NewGame, gen.Chance(t, 1, 4, "newgame"))
 				}
 				c.NewGame = append(c.NewGame, gen.Chance(t, 1, 4, "newgameLast"))
+			}
+			if c.Before = gen.EarlierPositions(t, c.FEN, false, c.Moves); len(c.Before) > 0 {
+				rec.Class("uci_earlier_position_commands")
 			}
 			if rec.WantSample("uci") && len(c.Moves) > 8 {
 				rec.Sample("uci", c)
